@@ -12,6 +12,15 @@ theorem pres_wact {s s' : St} {a : Act} (hI : Inv s) (h : step .repaired s a = s
   | fire t0 =>
     simp only [step] at h
     (repeat' (split at h)) <;> (try cases h) <;> (simp only [St.setPc, St.setObj]; (have i_wact := hI.wact; have i_wrA := hI.wrA; have i_wrB := hI.wrB; have i_rdA := hI.rdA; have i_rdB := hI.rdB; have i_refs := hI.refs; grind [wactive, wslot, rslot, PC.ref, Obj.fresh]))
+  | corrupt d =>
+    simp only [step] at h
+    (repeat' (split at h)) <;> (try cases h) <;> (simp only []; (have i_wact := hI.wact; have i_wrA := hI.wrA; have i_wrB := hI.wrB; have i_rdA := hI.rdA; have i_rdB := hI.rdB; have i_refs := hI.refs; grind [wactive, wslot, rslot, PC.ref, Obj.fresh]))
+  | block d =>
+    simp only [step] at h
+    (repeat' (split at h)) <;> (try cases h) <;> (simp only []; (have i_wact := hI.wact; have i_wrA := hI.wrA; have i_wrB := hI.wrB; have i_rdA := hI.rdA; have i_rdB := hI.rdB; have i_refs := hI.refs; grind [wactive, wslot, rslot, PC.ref, Obj.fresh]))
+  | repair d =>
+    simp only [step] at h
+    (repeat' (split at h)) <;> (try cases h) <;> (simp only []; (have i_wact := hI.wact; have i_wrA := hI.wrA; have i_wrB := hI.wrB; have i_rdA := hI.rdA; have i_rdB := hI.rdB; have i_refs := hI.refs; grind [wactive, wslot, rslot, PC.ref, Obj.fresh]))
   | run t0 =>
     simp only [step] at h
     split at h
